@@ -267,6 +267,9 @@ RULE = ("2-4 runs of one workflow instance with num_concurrent_runs 1..3 (and un
 from vmc.tables import _ROUND6 as _R6  # noqa: E402
 
 RULE += _R6["C30"]
+from vmc.tables import _ROUND7 as _R7  # noqa: E402
+
+RULE += _R7["C30"]
 
 
 
